@@ -155,7 +155,7 @@ func checkC09(r *core.Run, p *core.Program) {
 			return true
 		})
 	}
-	r.Floor("C09.eof", "read-error branches in cbe.Reader", nErr, 8)
+	r.Floor("C09.eof", "read-error branches in cbe.Reader", nErr, 5)
 
 	// ---- end-document column
 	table, ruleTypes, _, pos := ruleTable(p, a)
